@@ -252,7 +252,7 @@ def evidence(pid, tier, seed, mod, results, wall, nviol, known_hits, extra_cov=N
             "groups": [{"name": r.group.name, "kind": r.group.kind, "config": r.group.cfg, "status": r.status,
                         "enforced": r.group.enforce, "replaced": r.group.replace,
                         "obligations": r.obligations, "discharged": r.discharged, "undecided": r.unknown,
-                        "classes": r.classes, "wall_s": round(r.wall, 1), "solver_s": round(r.solver_s, 1),
+                        "classes": r.classes, "wall_s": round(r.wall, 1), "solver_s": round(r.solver_s, 1), "solver_peak_rss_gb": getattr(r, "mem_gb", 0.0), "mem_key": driver.mem_key(r.group),
                         "error": r.error[-300:] if r.error else ""} for r in sorted(main, key=lambda x: x.group.name)],
             "bounded": [{"name": r.group.name, "bound": r.group.bound, "status": r.status,
                          "obligations": r.obligations, "discharged": r.discharged} for r in bounded],
